@@ -259,6 +259,9 @@ def run_case(case):
         return dict(nontrivial=False, outcome="inapplicable", violations=[])
     if corpus.has_altlocs(t):
         return dict(nontrivial=False, outcome="altlocs-skipped", violations=[])
+    if "file" in case and not corpus.single_conformer(t):
+        # the property is about single-conformer structures; copies of a residue closer than 0.5 A are reduced to one by the first reader (C08)
+        return dict(nontrivial=False, outcome="overlapping-conformers-skipped", violations=[])
     keys = [(ident_of(a), a["name"]) for a in t]
     if len(set(keys)) != len(keys):
         return dict(nontrivial=False, outcome="repeated-atoms-skipped", violations=[])
